@@ -5,7 +5,7 @@
    recorded holes are proved as refutations with concrete witnesses, replayed on the
    implementation by checks/c08.py.  Not proved: soundness for programs with `let` (outside the
    two known classes it is covered by the differential check only). *)
-From RP Require Import Base Target MiluSyntax MiluDoc MiluEval C08Proofs MiluSound MiluWf.
+From RP Require Import Base Target MiluSyntax MiluDoc MiluEval C08Proofs MiluSound MiluWf MiluSoundLet.
 From Coq Require Import ZArith String.
 
 Theorem C08_int_op_total : forall name a b, is_int_op name = true ->
@@ -93,3 +93,40 @@ Print Assumptions C08_checker_total.
 Theorem C08_wf_check_sound : forall e, wf_lfb e = true -> wf_lf e.
 Proof. exact wf_lfb_sound. Qed.
 Print Assumptions C08_wf_check_sound.
+
+(* ---- programs with let ---------------------------------------------------------------------- *)
+(* The fragment wf_sl (MiluSoundLet.v): everything let-free, plus lets that may nest and shadow, whose bound
+   expressions do not take their value from an index or tuple projection, whose bound names appear only as
+   arguments of builtins that force their arguments, and whose array / tuple literals mention no let-bound name.
+   For it the checker is sound: accepted programs never end in a type error. *)
+Theorem C08_type_soundness_with_let :
+  forall regex_match cidr_match_text rq fuel1 fuel2 e T,
+    wf_sl e ->
+    type_of regex_match cidr_match_text rq fuel1 [] e = Ok T ->
+    match value_of regex_match cidr_match_text rq fuel2 [] e with
+    | Ok v => vtyped regex_match cidr_match_text rq v T
+    | Err c => c <> E_TYPE
+    | Panic _ => False
+    end.
+Proof. exact soundness_scalar_let. Qed.
+Print Assumptions C08_type_soundness_with_let.
+
+Theorem C08_type_soundness_with_let_entry_points :
+  forall regex_match cidr_match_text rq fuel1 fuel2 e T,
+    wf_sl e ->
+    real_type_of regex_match cidr_match_text rq fuel1 [] e = Ok T ->
+    match real_value_of regex_match cidr_match_text rq fuel2 [] e with
+    | Ok v => vtyped_strict regex_match cidr_match_text rq v T
+    | Err c => c <> E_TYPE
+    | Panic _ => False
+    end.
+Proof. exact soundness_scalar_let_real_strict. Qed.
+Print Assumptions C08_type_soundness_with_let_entry_points.
+
+Theorem C08_let_fragment_contains_let_free : forall e, wf_lf e -> wf_sl e.
+Proof. exact wf_lf_wf_sl. Qed.
+Print Assumptions C08_let_fragment_contains_let_free.
+
+Theorem C08_let_fragment_check_sound : forall e, wf_slb e = true -> wf_sl e.
+Proof. exact wf_slb_sound. Qed.
+Print Assumptions C08_let_fragment_check_sound.
